@@ -18,9 +18,11 @@ import random
 import re
 import shutil
 import tempfile
+import time
 
 import vcommon as V
 
+JVM = ["-XX:ParallelGCThreads=2", "-XX:CICompilerCount=2"]   # many JVMs run side by side on a shared machine
 OK_VERDICTS = ("AGREE", "LOUD_RESTRICTION", "BOTH_LOUD")
 CATEGORY = {
     "WRONG_VALUE": "wrong-value",
@@ -152,7 +154,7 @@ def _judge_chunk(specdir, workroot, name, tier, seed, entries, timeout, famlo, f
         with open(os.path.join(work, "OpsJudge.cfg"), "w") as f:
             f.write(cfg_text(tier, seed, "INIT JInit\nNEXT JNext\nCHECK_DEADLOCK FALSE", "  Start = %d\n" % start, famlo, famhi))
         res = V.tlc(work, "OpsJudge", cfg="OpsJudge.cfg", workers=1, timeout=timeout, deadlock=False,
-                    extra=["-nowarning"])
+                    extra=["-nowarning"], heap="4g", jvm=JVM)
         results.append(res)
         n = 0
         for m in re.finditer(r'<<"V", (\d+), "([A-Z_]+)">>', res.out):
@@ -191,6 +193,8 @@ def run(chk):
         replay = json.load(open(chk.replay))
         tier, seed = replay.get("tier", tier), int(replay.get("seed", seed))
     rnd = random.Random(seed)
+    t0, timing = time.time(), {}
+    chk.notes["phase_seconds"] = timing
     work = os.path.join(chk.tmp, "spec")
     V.copy_specs(specsrc, work)
 
@@ -200,12 +204,13 @@ def run(chk):
     pool = concurrent.futures.ThreadPoolExecutor(max_workers=2)
     build = pool.submit(V.build_driver, "c03drv", chk.bindir)
     res = V.tlc(work, "MCOpsOracle", cfg="MCOpsOracle.cfg", workers=1, timeout=1500 if quick else 3000,
-                deadlock=False, extra=["-nowarning"])
+                deadlock=False, extra=["-nowarning"], heap="4g", jvm=JVM)
     chk.add_tlc("MCOpsOracle (%s): every defined row evaluated by TLC; PrintCanonical, DefinedHasValue" % tier, res)
     rows_path = os.path.join(work, "rows.ndjson")
     if not res.ok or not os.path.exists(rows_path):
         raise V.Inconclusive("design-level TLC run failed: %s" % (res.error or res.violation or res.out[-1500:]))
     chk.exhaustive = True
+    timing["design_tlc"] = round(time.time() - t0, 1)
     rows = V.read_jsonl(rows_path)
     by_id = {r["id"]: r for r in rows}
     chk.notes["rows"] = len(rows)
@@ -223,6 +228,7 @@ def run(chk):
         if not only:
             raise V.Inconclusive("replay rows not found in the current table")
     results, skipped = run_driver(chk, drv, rows_path, rows, os.path.join(chk.tmp, "results.ndjson"), only)
+    timing["driver_done_at"] = round(time.time() - t0, 1)
     if skipped:
         chk.gaps.append("%d rows not evaluated after two hangs in their family: ids %s..." % (len(skipped), skipped[:8]))
     chk.notes["rows_evaluated_on_library"] = len(results)
@@ -296,7 +302,9 @@ def run(chk):
     if missing:
         raise V.Inconclusive("no verdict for %d rows (first %s)" % (len(missing), missing[:5]))
 
+    timing["judge_done_at"] = round(time.time() - t0, 1)
     answers = repl.result()
+    timing["repl_done_at"] = round(time.time() - t0, 1)
     tlc_error_confirmed, pessimistic = set(), []
     unanswered = 0
     for r, a in zip(confirm + sample_err, answers[:len(confirm) + len(sample_err)]):
